@@ -648,6 +648,7 @@ class TransportSim:
         cfg["client_idle"] = it[c.choose(len(it))]
         cfg["server_idle"] = it[c.choose(len(it))]
         cfg["initial_rtt"] = (0.1, 0.05, 0.333)[c.choose(3)]
+        cfg["foreign_tp"] = bool(p.get("foreign_tp_p")) and c.chance(p["foreign_tp_p"])
         cfg["batch_rx"] = (0.0, 0.0005, 0.005)[c.choose(3)] if p.get("batch_rx_p") and c.chance(p["batch_rx_p"]) else None
         cfg["quiet_side"] = c.choose(2) if p.get("quiet_side_p") and c.chance(p["quiet_side_p"]) else None
         cfg["retry"] = bool(p.get("retry_p")) and c.chance(p["retry_p"])
@@ -858,6 +859,8 @@ class TransportSim:
         if split:
             c = ep.conn
             c._local_max_stream_data_bidi_local, c._local_max_stream_data_bidi_remote, c._local_max_stream_data_uni = split
+        if self.cfg.get("foreign_tp") and not ep.is_client:
+            self._advertise_foreign_parameters(ep.conn)
         boa = self.cfg.get("blackout_on_accept")
         if boa and not ep.is_client and self.k.now < self.cfg["t_fair"]:
             end = min(self.k.now + boa[0], self.cfg["t_fair"])
@@ -866,6 +869,33 @@ class TransportSim:
         hook = self.profile.get("post_create")
         if hook:
             hook(self, ep)
+
+    @staticmethod
+    def _advertise_foreign_parameters(conn):
+        """A server that is not aioquic may advertise transport parameters aioquic itself never sends
+        (preferred_address, disable_active_migration): add them to what this server instance serialises."""
+        import aioquic.quic.connection as qc
+        from aioquic.quic.packet import QuicPreferredAddress
+
+        orig_ser = conn._serialize_transport_parameters
+
+        def serialize():
+            orig_push = qc.push_quic_transport_parameters
+
+            def push(buf, params):
+                params.preferred_address = QuicPreferredAddress(
+                    ipv4_address=("192.0.2.1", 4433), ipv6_address=("2001:db8::1", 4433),
+                    connection_id=bytes(range(8)), stateless_reset_token=bytes(range(16)))
+                params.disable_active_migration = True
+                return orig_push(buf, params)
+
+            qc.push_quic_transport_parameters = push
+            try:
+                return orig_ser()
+            finally:
+                qc.push_quic_transport_parameters = orig_push
+
+        conn._serialize_transport_parameters = serialize
 
     def peer_stream_data_limit(self, ep, sid):
         """initial per-stream window the PEER of ep grants for ep's sending on stream sid"""
